@@ -12,6 +12,7 @@ from ..enum_f import run_grid
 common.import_pams()
 from pams.fundamentals import Fundamentals  # noqa: E402
 from pams.market import Market  # noqa: E402
+from pams.simulator import Simulator  # noqa: E402
 
 RULE = ("(transform) every parameter set with n <= 3 markets over volatility {0,1/8,1/4,1/2} x drift {-2^-6,0,2^-7} x pairwise "
         "correlation {-1/2,-1/4,0,1/2,3/4} (positive-definite only) with the normal source replaced by a stub: z = 0, every basis "
@@ -20,7 +21,7 @@ RULE = ("(transform) every parameter set with n <= 3 markets over volatility {0,
         "(runner) every two-market configuration over {marketPrice, fundamentalPrice, both, both through extends} x drift x volatility x "
         "pairwise correlation (either name order) run through the real runner and compared, for the same noise, with a generator built "
         "by hand from the configuration; distinct = parameter sets / canonical history states")
-WIT = ["correlation_given_in_reverse_order", "zero_noise_path", "basis_probe", "affine_probe", "correlated_pair", "zero_vol_market_ignores_z", "hist_shock",
+WIT = ["selection_cases", "selection_strided_range", "correlation_given_in_reverse_order", "zero_noise_path", "basis_probe", "affine_probe", "correlated_pair", "zero_vol_market_ignores_z", "hist_shock",
        "hist_param_change", "hist_advance_across_chunk", "hist_past_values_compared", "hist_continuation_checked", "hist_volatility_changed_between_nonzero_values", "hist_joint_noise_vector_two_volatile_markets", "late_start_cases", "runner_configurations", "runner_correlated_pair"]
 VOL = [0, 0.125, 0.25, 0.5]
 DR = [-2.0 ** -6, 0, 2.0 ** -7]
@@ -197,8 +198,11 @@ def transform_fn(case, wit):
 # ------------------------------------------------------------------------------------------------ history BFS
 
 
-class Sim:
-    pass
+class Sim(Simulator):
+    """a real simulator object whose generator is replaced by the one under test"""
+
+    def __init__(self):
+        super().__init__(prng=random.Random(0))
 
 
 def zpattern(size, call_no):
@@ -507,11 +511,56 @@ def runner_fn(case, wit):
     return (a[0], b[0], a[1:], b[1:], corr is not None)
 
 
+# ------------------------------------------------------------------------------------------------
+# the list getter read for every kind of selection of times
+
+
+def selection_cases():
+    for chunk in (3, 100):
+        for T in (0, 1, 5, 7, 250):
+            for first in ("list_getter", "single_getter"):
+                yield (chunk, T, first)
+
+
+def selection_fn(case, wit):
+    """the generator's list getter for sparse, newest-first, repeated, strided (as list, tuple, range, numpy array) selections
+    of times gives, element for element, the value of the single getter -- whichever of the two is the first to ask for
+    times not generated yet"""
+    chunk, T, first = case
+    sels = [[0, T], [T, 0], [T, T], list(range(T + 1)), range(T + 1), range(0, T + 1, 2), range(0, T + 1, 50), range(T, -1, -1), range(T, -1, -3),
+            tuple(range(0, T + 1, 3)), np.arange(0, T + 1, 2), range(T, T + 1), [T + 7, 0, T + 2]]
+    for si, sel in enumerate(sels):
+        f = mk([0.25, 0.0], [2.0 ** -7, -2.0 ** -6], {}, [100.0, 50.0], zpattern, chunk=chunk)
+        ts = [int(x) for x in sel]
+        for mid in (0, 1):
+            if first == "single_getter":
+                want = [f.get_fundamental_price(mid, t) for t in ts]
+                got = f.get_fundamental_prices(mid, sel)
+            else:
+                got = f.get_fundamental_prices(mid, sel)
+                want = [f.get_fundamental_price(mid, t) for t in ts]
+            if len(got) != len(want) or any(a != b for a, b in zip(got, want)):
+                raise Violation("C12.selection", "the generator's list getter, read for a selection of times, does not give the values of those times",
+                                "market %d, times %r (generation chunk %d): %d values %r..., expected %d values %r..." % (
+                                    mid, sel, chunk, len(got), list(got)[:4], len(want), want[:4]))
+            if mid == 1:
+                # the zero-volatility market: exactly initial x exp(drift t)
+                for t, v in zip(ts, got):
+                    if abs(v - 50.0 * math.exp(-2.0 ** -6 * t)) > 1e-9 * 50.0:
+                        raise Violation("C12.zero_vol_path", "with zero volatility the value read for time t is not initial x exp(drift t)",
+                                        "times %r: t=%d value %r" % (sel, t, v))
+        if isinstance(sel, range) and sel.step != 1:
+            wit.inc("selection_strided_range")
+        wit.inc("selection_cases")
+    return (chunk, T > chunk, first)
+
+
 def run(tier, seed):
     res = common.Result("C12", tier, seed)
     run_grid(res, "runner_wiring", list(runner_cases()), runner_fn, seed)
     run_grid(res, "transform", list(transform_cases(3 if tier == "quick" else 3)), transform_fn, seed)
     run_grid(res, "late_start", list(late_start_cases()), late_start_fn, seed)
+    run_grid(res, "selections_of_times", list(selection_cases()), selection_fn, seed)
     for chunk, dq, dt in ((3, 5, 7), (100, 4, 6)):
         history_search(res, chunk, dq if tier == "quick" else dt, seed)
     res.coverage["exhaustive"] = True
@@ -528,6 +577,15 @@ def replay(payload):
             return tuple(tp(y) for y in x) if isinstance(x, list) else x
         try:
             runner_fn(tp(payload["case"]), Counter())
+        except Violation as v:
+            print("  ==> VIOLATION %s: %s" % (v.monitor, v.msg))
+            print("VIOLATION property=C12 replay=(this file)")
+            return 1
+        print("replay: no violation on this tree")
+        return 0
+    if payload.get("grid") == "selections_of_times":
+        try:
+            selection_fn(tuple(payload["case"]), Counter())
         except Violation as v:
             print("  ==> VIOLATION %s: %s" % (v.monitor, v.msg))
             print("VIOLATION property=C12 replay=(this file)")
